@@ -16,17 +16,20 @@ def _sched(prop, rule, quick, thorough, minq, mint, deciding, extra_assume=()):
                 deciding_monitors=deciding, assumptions=BASE_ASSUME + list(extra_assume))
 
 
+MICRO = ("micro-universe: every project of 2-3 sub-slot tasks (efforts 10..90 min) on ONE resource x every labelled DAG x gap {0,15min} x "
+         "ASAP/ALAP x efficiency {1,0.5} x priority order (109,760 projects; complete in thorough, seeded 1/8 slice in quick) + ")
+
 REG = {
-    "C01": _sched("C01", "random sub-slot/contention projects (all resolutions 5..60 min, ASAP+ALAP, teams, alternatives) + mechanism-free core "
+    "C01": _sched("C01", MICRO + "random sub-slot/contention projects (all resolutions 5..60 min, ASAP+ALAP, teams, alternatives) + mechanism-free core "
                   "dialect; non-trivial = at least one (resource,slot) shared by >=2 tasks; distinct = (resolution, mode, set of "
-                  "<#tasks sharing, portion kinds full/anchored/free, team involved?, directions> slot patterns, #shared slots)", 10000, 120000, 100, 600, ["monitor:book", "shared-slots"]),
+                  "<#tasks sharing, portion kinds full/anchored/free, team involved?, directions> slot patterns, #shared slots)", 6000, 120000, 100, 600, ["monitor:book", "shared-slots"]),
     "C02": _sched("C02", "hostile-calendar projects: aligned stratum (any violation is new) and non-aligned stratum (slot-start sampling is the "
                   "only accepted mechanism); non-trivial = booked portions on a resource with own hours/zone/leave; distinct = (resolution, mode, "
                   "zones of booked resources, vacation?, leaves?, cross-midnight?, start month)", 9000, 100000, 100, 600,
                   ["monitor:book", "portions-checked"]),
-    "C03": _sched("C03", "sub-slot + core projects, efficiencies {0.5,0.7,0.8,0.9,1,1.25,2}, teams (equal efficiency), alternatives; non-trivial = "
+    "C03": _sched("C03", MICRO + "sub-slot + core projects, efficiencies {0.5,0.7,0.8,0.9,1,1.25,2}, teams (equal efficiency), alternatives; non-trivial = "
                   "at least one scheduled effort task; distinct = (resolution, mode, set of <fractional effort?, efficiency, team size, has "
-                  "alternatives>)", 10000, 120000, 100, 800, ["monitor:book", "tasks-scheduled"]),
+                  "alternatives>)", 6000, 120000, 100, 800, ["monitor:book", "tasks-scheduled"]),
     "C04": _sched("C04", "nested DAGs depth<=4 with gaps/on-start/container edges/dated containers, ASAP and ALAP envelope; non-trivial = at "
                   "least one dependency edge checked; distinct = (depth, edge-kind set, dated container?, mode, resolution)", 9000, 100000, 100, 600,
                   ["edges-checked", "monitor:pick"]),
@@ -34,9 +37,9 @@ REG = {
                   "plus ample-horizon core; non-trivial = at least one limited period with bookings; distinct = (limit scopes+kinds, horizon "
                   "extended?, resolution, mode, start near ISO year boundary?, start weekday)", 8000, 90000, 80, 500,
                   ["limit-periods-checked", "monitor:limit.inc"]),
-    "C06": _sched("C06", "sub-slot projects with contention, milestones after mid-slot predecessors + core; non-trivial = a scheduled task that "
+    "C06": _sched("C06", MICRO + "sub-slot projects with contention, milestones after mid-slot predecessors + core; non-trivial = a scheduled task that "
                   "starts or ends inside a slot; distinct = (resolution, set of <forward?, start mid-slot, end mid-slot, single-slot>)",
-                  10000, 120000, 60, 300, ["monitor:book", "tasks-scheduled"]),
+                  6000, 120000, 60, 300, ["monitor:book", "tasks-scheduled"]),
     "C08": _sched("C08", "ASAP hostile-calendar (cross-midnight only on mon-sun), ALAP with explicit-end anchors, core; quantifier: effort tasks "
                   "with one unlimited resource; non-trivial = at least one empty slot examined between bound and end; distinct = (mode, "
                   "resolution, #empty slots bucket, #tasks, shifts?, zones?)", 9000, 100000, 100, 600, ["tasks-checked", "empty-slots-examined"]),
